@@ -61,3 +61,53 @@ RULES = {
     "C13": "proptest heap programs with try_unwrap-heavy profile. Non-trivial: an Ok on an object that had lost a pointer before or had weak pointers, and an Err in the same case. Distinct by case hash.",
     "C14": "proptest heap programs with new_cyclic-heavy profile and faults. Non-trivial: a new_cyclic call during which a collection ran, or whose closure panicked after saving a weak clone. Distinct by case hash.",
 }
+
+HEAP_NOTE = ("Trusted: the harness (shadow graph, callbacks, tracking allocator), the read-only hooks, rustc. "
+             "Sampling, not proof: object graphs of <= 48 Node objects, programs of <= 40 operations plus epilogue; "
+             "the payload type is one fixed Node layout.")
+
+
+def claim(technique, text, note=HEAP_NOTE, engine="g1-proptest-heap"):
+    return {"technique": technique, "text": text, "note": note, "engine": engine}
+
+
+CLAIMS = {
+    "C01": claim("stateful property-based testing (proptest) against a shadow-graph reachability oracle, poisoning allocator",
+                 "Generated API histories on all 8 feature/profile builds; after every operation every program-reachable object is read through real pointers (canary, identity, box liveness); Drop/free of a reachable object is flagged at the instant it happens. Held on everything explored; no absence claim."),
+    "C02": claim("stateful property-based testing (proptest), completeness oracle Live <= Reach U Pinned after quiescent collection",
+                 "Panic-free generated histories; collect_cycles() repeated to quiescence with roots held and after releasing all roots; every unreachable, unpinned object must be gone."),
+    "C03": claim("property-based testing with an instrumented global allocator (double free / layout / order rules)",
+                 "Allocator side table checks every release of a crate allocation (known block, same layout, not twice); Drop callbacks check the canary (once, never on freed or unconstructed memory)."),
+    "C04": claim("stateful property-based testing (proptest), exact reference-count model",
+                 "strong_count of every reachable object compared with the number of Cc pointers in the shadow graph after every operation; last-owner drops outside collections must reclaim at once, recursively."),
+    "C05": claim("stateful property-based testing (proptest), instant rules inside the Finalize callback",
+                 "Every finalize call is checked at the instant it runs: target unreachable from pre-existing pointers, at most once, before Drop, neighbours undropped and intact, flag model."),
+    "C06": claim("stateful property-based testing (proptest) with resurrecting finalizer scripts, bounded-work invariant",
+                 "Finalizers resurrect themselves/neighbours by clone, weak upgrade or store into live objects; survivors must stay intact and usable, the rest reclaimed, callbacks per API call bounded."),
+    "C07": claim("fault injection at generated callback invocation indices (fault-free run, then faulted re-run), same oracles in the continuation",
+                 "For each generated program the k-th invocation of a callback kind panics (k relative to the fault-free counts, up to 2 faults); the panic must reach the caller, the collector must be idle, and C01/C03/C05/C08 rules stay on for the rest of the program and the epilogue."),
+    "C08": claim("stateful property-based testing (proptest), three-valued upgrade expectation + post-hoc batch rule",
+                 "Every Weak::upgrade (top level, finalizers, destructors, cleaning actions) is compared with the shadow state of the target; Some must be the right, intact allocation; None on a live owned target is a violation unless the target is destroyed in the same batch."),
+    "C09": claim("stateful property-based testing (proptest), exact weak/strong count model, allocator-observed side record",
+                 "Cc::weak_count, Weak::weak_count, Weak::strong_count after every operation against the shadow graph, including handles that outlive value and box; side-record block lifetime from the allocator."),
+    "C10": claim("stateful property-based testing (proptest), per-action invocation counters",
+                 "Each cleaning action counts its runs: never more than once; exactly once after a top-level clean() and after the owner's destruction (panic-free); dropping a Cleanable changes nothing."),
+    "C11": claim("stateful property-based testing (proptest), differential check of counters against hook walk and allocator",
+                 "After every operation: cached buffer size vs walked list, link integrity, entries live and marked; allocated_bytes vs the allocator's live managed blocks; executions_count steps."),
+    "C12": claim("stateful property-based testing (proptest) with nested-callback scripts; is_tracing() sampled in every callback",
+                 "is_tracing() is read in every Trace/Finalize/Drop/action callback and between operations; collection requests from collector callbacks must be no-ops; try_unwrap/finalize_again inside callbacks must refuse and leave the object unchanged."),
+    "C13": claim("stateful property-based testing (proptest), uniqueness oracle from the shadow graph",
+                 "try_unwrap at top level: Ok iff the shadow graph has exactly one Cc; on Ok the value is intact, nothing ran, box released, not buffered; on Err the header word and buffer are unchanged."),
+    "C14": claim("property-based testing with fault injection around new_cyclic (closure scripts, due automatic collections)",
+                 "Inside the closure the weak is dead and counts are exact; afterwards strong_count is 1; if the closure or the triggered collection panics no Node destructor may run on unconstructed memory (canary), the box is released and saved weaks stay dead."),
+}
+
+NOT_APPLICABLE = [
+    {"property_id": p, "reason": "check under construction in this session (specialised generator not committed yet); the technique applies, see DESIGN.md section 5"}
+    for p in ["C15", "C16", "C17", "C18", "C19", "C20"]
+]
+
+ENGINES = [
+    {"name": "g1-proptest-heap", "path": "/verif/harness (rccv g1)", "serves_properties": sorted(PLAN.keys()),
+     "kind_free_text": "proptest TestRunner driven from a binary: generated heap programs (Vec<Op> + callback scripts + fault requests) interpreted against the real crate with a shadow graph, instrumented callbacks and a tracking/poisoning allocator; integrated shrinking; fixed seeds"},
+]
